@@ -101,6 +101,7 @@ sorted_view_(nullptr)
 template<typename T, typename C, typename A>
 kll_sketch<T, C, A>& kll_sketch<T, C, A>::operator=(const kll_sketch& other) {
   kll_sketch copy(other);
+  reset_sorted_view(); // release the cached view with the allocator that made it, before allocator_ changes
   std::swap(comparator_, copy.comparator_);
   std::swap(allocator_, copy.allocator_);
   std::swap(k_, copy.k_);
@@ -120,6 +121,9 @@ kll_sketch<T, C, A>& kll_sketch<T, C, A>::operator=(const kll_sketch& other) {
 
 template<typename T, typename C, typename A>
 kll_sketch<T, C, A>& kll_sketch<T, C, A>::operator=(kll_sketch&& other) {
+  // the cached views do not travel: release each with the allocator that made it, before the allocators are swapped
+  reset_sorted_view();
+  other.reset_sorted_view();
   std::swap(comparator_, other.comparator_);
   std::swap(allocator_, other.allocator_);
   std::swap(k_, other.k_);
